@@ -454,6 +454,19 @@ fn wa_fields(t: &mut Trace, rng: &mut Rng, k: &P256Key, k2: &P256Key) {
             resign(k, &mut c);
             run_both(t, &s, &c);
         }
+        if n != 32 {
+            // challenges of plausible 32-byte "normalizations" of a payload of another length: its
+            // SHA-256 digest, the payload zero-padded / truncated to 32 bytes. None is the payload.
+            use sha2::Digest as _;
+            let digest = sha2::Sha256::digest(&p).to_vec();
+            let mut padded = p.clone();
+            padded.resize(32, 0);
+            for alt in [digest, padded] {
+                c.cd = client_data("webauthn.get", &b64url(&alt, false), None);
+                resign(k, &mut c);
+                run_both(t, &s, &c);
+            }
+        }
     }
     // the genuine assertion with the payload extended / truncated afterwards
     for n in [31usize, 33, 40] {
